@@ -5,3 +5,5 @@ pub mod util;
 pub mod enc;
 pub mod c17;
 pub mod c14;
+pub mod c18;
+pub mod c04;
